@@ -252,6 +252,8 @@ class UniformMPS(MPS):
         hdf5_saver.save(self._C, subpath + 'tensors_C')
         hdf5_saver.save(self.chinfo, subpath + 'chinfo')
         hdf5_saver.save(self.segment_boundaries, subpath + 'segment_boundaries')
+        hdf5_saver.save(self.unit_cell_width, subpath + 'unit_cell_width')
+        h5gr.attrs['diagonal_gauge'] = self.diagonal_gauge
         h5gr.attrs['valid_umps'] = self.valid_umps
         h5gr.attrs['norm'] = self.norm
         h5gr.attrs['grouped'] = self.grouped
@@ -408,6 +410,8 @@ class UniformMPS(MPS):
         obj._AC = hdf5_loader.load(subpath + 'tensors_AC')
         obj._C = hdf5_loader.load(subpath + 'tensors_C')
         obj.bc = 'infinite'
+        obj.unit_cell_width = hdf5_loader.load(subpath + 'unit_cell_width') if 'unit_cell_width' in h5gr else len(obj.sites)
+        obj.diagonal_gauge = h5gr.attrs.get('diagonal_gauge', False)
         obj.norm = hdf5_loader.get_attr(h5gr, 'norm')
         obj.valid_umps = hdf5_loader.get_attr(h5gr, 'valid_umps')
         obj.form = [None] * len(obj._AR)
